@@ -75,7 +75,7 @@ func primEntry(p string) int {
 func (sb *sandbox) chainTrueLoc(cfg *histCfg, cwd *node, Lprev, req string) (string, bool) {
 	if cfg.Part == "fs" {
 		m, root := sb.mNL, sb.rootNL
-		if cfg.Root.Spelling == "dirfs" {
+		if onDisk(cfg.Root.Spelling) {
 			m, root = sb.m, sb.rootN
 		}
 		raw := req
@@ -200,7 +200,7 @@ func chainLoadedBy(steps []chainStep, k int) string {
 
 func (w *worker) judgeChain(cfg *histCfg, cwd *node, steps []chainStep) chainResult {
 	sb := w.sb
-	dirfs := cfg.Part == "fs" && cfg.Root.Spelling == "dirfs"
+	dirfs := cfg.Part == "fs" && followsLinksOut(cfg.Root.Spelling)
 	p := "rfl"
 	if cfg.Part == "fs" {
 		p = "fslib"
